@@ -739,8 +739,22 @@ def g_factory_mt(rng):
     return {"threads": threads, "barriers": {"s": nt}, "end": "return", "tail": [{"op": "wait", "futs": "all"}]}, {"gen": "g_factory_mt", "threads": nt, "kw": {"timeout": tmo}}
 
 
-def g_resize(rng):
-    """C10: (old,new) pairs with in-flight work and idle time-outs."""
+def g_resize(rng, family=None):
+    """C10: (old,new) pairs with in-flight work and idle time-outs.
+    family 'callback_submits': the jobs in flight during the resize have done-callbacks that submit a follow-up task to the
+    same executor (the joblib dispatch pattern) from the manager thread."""
+    if family == "callback_submits":
+        n0 = rng.randint(2, 4)
+        n1 = rng.choice([x for x in range(1, 6) if x != n0])
+        kw = {"max_workers": n0, "timeout": 100}
+        ops = [{"op": "new", "ex": "e", "kind": "reusable", "kw": kw}, {"op": "submit", "ex": "e", "task": t_ok(rng)}, {"op": "wait", "futs": "all"}]
+        single = rng.random() < 0.5  # exactly one job in flight: its work item is accounted for before its callbacks run
+        for _ in range(1 if single else rng.randint(n0, 2 * n0)):
+            ops.append({"op": "submit", "ex": "e", "task": t_sleep(rng, 0.2, 0.4), "chain_cb": True})
+        ops += [{"op": "sleep", "d": rng.choice([0.0, 0.05])},
+                {"op": "get_reusable", "ex": "e", "kw": dict(kw, max_workers=n1), "resize": [n0, n1]},
+                {"op": "wait", "futs": "all"}, {"op": "submit", "ex": "e", "task": t_ok(rng)}, {"op": "wait", "futs": "all"}, {"op": "quiesce", "ex": ["e"]}]
+        return {"threads": [ops], "end": "return"}, {"gen": "g_resize", "kw": kw, "old": n0, "family": family, "direction": "grow" if n1 > n0 else "shrink", "single": single}
     tmo = rng.choice([None, None, 0.3, 0.05, 0.01])
     old = rng.randint(1, 6)
     kw = {"max_workers": old, "timeout": tmo if tmo is not None else 100}
